@@ -64,55 +64,50 @@ def r1(ctx):
         ctx.check(mentions(e[2][0], lambda s: s[0] == "variant" and s[2] == "Endpoint") and mentions_field(e[2][0], "source"), key + "|addr-src", "%s address = %s" % (kind, expr_str(e[2][0])), body.where(b.idx))
 
 
+UD = ("PriUnconfirmedUserData", "PriConfirmedUserData")
+
+
 def r2(ctx):
     prog = ctx.prog
     body = prog.body("link::layer::Layer::process_header")
     gi = ctx.gi(body)
-    bc_none = g_is(lambda x: x[0] == "var" and x[1] == "broadcast" or mentions_name(x, "broadcast"), "None")
-    bc_some = g_is(lambda x: x[0] == "var" and x[1] == "broadcast" or mentions_name(x, "broadcast"), "Some")
-    # the "broadcast => user data only" guard
-    guard_edges = []
-    for g in arm_edges(ctx, body, lambda g: g.kind in ("isnot", "is", "oneof") and g.a[0] == "field" and g.a[2] == "func"):
-        doms = gi.dominating(g.edge[0])
-        if not any(bc_some(d) for d in doms):
-            continue
-        guard_edges.append(g)
-    reject = [g for g in guard_edges if g.kind == "isnot" or (g.kind == "is" and g.name not in ("PriUnconfirmedUserData", "PriConfirmedUserData"))]
-    ctx.check(bool(reject), "broadcast-guard:exists", "a test on header.control.func exists under `broadcast is Some`", body.where(reject[0].edge[0]) if reject else body.where(line=body.line))
-    site_blocks = {b.idx for b, _ in _sites(body)}
-    for g in reject:
-        if g.kind == "isnot":
-            ctx.check(set(g.name) == {"PriUnconfirmedUserData", "PriConfirmedUserData"}, "broadcast-guard:set", "broadcast accepts exactly the user-data functions: not-in %s" % (sorted(g.name),), body.where(g.edge[0]))
-        # the rejecting edge may set a bool temp (matches!) or return directly: follow to the sites
-        reach = reachable_from_edge(body, g)
-        # if it is a matches! temp, the temp==false edge is what returns; both forms end with no site reachable
-        # from the edge that carries `false`.
-        hit = reach & site_blocks
-        if hit:
-            # matches!-lowering: find the switch on the temp, and use its `false` edge
-            temps = [x for x in gi.all_guards() if x.kind == "bool" and x.truth is False and x.a[0] == "var" and body.edge_dominates(g.edge, x.edge[0]) is False and x.edge[0] in reach]
-            ok = False
-            for x in temps:
-                if not (reachable_from_edge(body, x) & site_blocks):
-                    ok = True
-            ctx.check(ok, "broadcast-guard:rejects", "non-user-data broadcast frames reach no FrameInfo/Reply construction", body.where(g.edge[0]), bad_detail="a broadcast frame with a non-user-data function can reach a delivery/reply site")
-        else:
-            ctx.ok("broadcast-guard:rejects", "non-user-data broadcast frames reach no FrameInfo/Reply construction", body.where(g.edge[0]))
-    # every reply: explicit `broadcast is None`, or an arm the broadcast guard excludes
+    isbc = lambda x: x[0] == "var" and x[1] == "broadcast" or mentions_name(x, "broadcast")
+    isfunc = lambda x: x[0] == "field" and x[2] == "func"
+    bc_none = g_is(isbc, "None")
+
+    def ud_only(g):
+        if not (g.a is not None and isfunc(g.a)):
+            return False
+        if g.kind == "is":
+            return g.name in UD
+        if g.kind == "oneof":
+            return set(g.name) <= set(UD)
+        return False
+
+    cut = [("broadcast is None", bc_none), ("func in {user data}", ud_only)]
+    # 1. everything process_header can do for a function other than user data (deliver, reply, change the secondary
+    #    state) is reachable only with `broadcast is None` -- in whatever order the two tests are written
+    acts = [(b, kind) for b, kind in _sites(body)]
+    for b, si, st in field_writes(body, "secondary_state"):
+        acts.append((b, "secondary_state="))
     k = 0
-    for b in call_sites(body, r"layer::Reply::new$"):
+    n_shielded = 0
+    for b, kind in acts:
         k += 1
         doms = gi.dominating(b.idx)
-        func = [g.name for g in doms if g.kind == "is" and g.a[0] == "field" and g.a[2] == "func"]
-        f = func[0] if func else "?"
+        func = [g.name for g in doms if g.kind == "is" and isfunc(g.a)]
+        f = func[-1] if func else "?"
+        key = "%s#%d@%s" % (kind.lower().rstrip("="), k, f)
+        if f in UD:
+            if kind == "Reply":
+                ctx.check(any(bc_none(d) for d in doms), key, "Reply in a user-data arm is dominated by `broadcast is None`", body.where(b.idx), bad_detail="link-layer reply (ACK) constructed for user data without `broadcast is None`")
+            continue
         if any(bc_none(d) for d in doms):
-            ctx.ok("reply#%d@%s" % (k, f), "Reply dominated by `broadcast is None`", body.where(b.idx))
-        else:
-            ok = f not in ("PriUnconfirmedUserData", "PriConfirmedUserData", "?") and bool(reject)
-            # the guard must come before the dispatch on func
-            disp = [g for g in gi.all_guards() if g.kind == "is" and g.name == f and g.a[0] == "field" and g.a[2] == "func" and body.edge_dominates(g.edge, b.idx)]
-            ok = ok and bool(disp) and any(body.block_dominates(r.edge[0], disp[0].edge[0]) or not body.can_reach(0, disp[0].edge[0], removed_blocks={body.cfg[1][r.edge[0]][0]} if body.cfg[1][r.edge[0]] else set()) for r in reject)
-            ctx.check(ok, "reply#%d@%s" % (k, f), "Reply in the %s arm is shielded by the broadcast=>user-data guard" % f, body.where(b.idx), bad_detail="Reply constructed in the %s arm without `broadcast is None` and without the broadcast guard before the dispatch" % f)
+            ctx.ok(key, "%s dominated by `broadcast is None`" % kind, body.where(b.idx))
+            continue
+        n_shielded += 1
+        require_cut(ctx, body, b.idx, cut, key, "%s for function %s" % (kind, f))
+    ctx.check(n_shielded >= 3, "broadcast-guard:covers", "%d non-user-data actions rely on the broadcast=>user-data guard" % n_shielded, body.where(line=body.line))
     # read_one transmits only what process_header returned
     ro = prog.abody("link::layer::Layer::read_one")
     for b in call_sites(ro, r"PhysLayer::write$"):
@@ -232,6 +227,23 @@ def r5(ctx):
     # the pop happens on the mismatch edge
     for p in pops:
         ctx.require_guards(body, p.idx, [("required address is Some", g_is(lambda x: mentions_name(x, "master_address"), "Some")), ("address != required", lambda g: g in cmp_guards and g.op == "Ne")], "pop_request:pop", "discarding the fragment")
+    # ... and nothing else decides: a request is handed out without the pop only when it carries no address, no master
+    # address is required, or the addresses are equal (a further condition on the mismatch path, e.g. "directed only",
+    # lets a foreign master's fragment through)
+    ismaster = lambda x: mentions_name(x, "master_address") or mentions_name(x, "required_master_addr")
+    legit = [
+        ("required address is None", g_is(ismaster, "None")),
+        ("address == required", lambda g: g.kind == "rel" and g.op == "Eq" and (ismaster(g.a) or ismaster(g.b)) and (mentions_field(g.a, "link") or mentions_field(g.b, "link"))),
+        ("request carries no address", lambda g: g.kind in ("is", "oneof") and not ismaster(g.a) and (
+            (g.kind == "is" and g.name in ("None", "LinkLayerMessage")) or (g.kind == "oneof" and set(g.name) <= {"None", "LinkLayerMessage"})) and not mentions_field(g.a, "broadcast") and not mentions_field(g.a, "addr")),
+    ]
+    edges = []
+    for label, pred in legit:
+        edges += [g.edge for g in gi.all_guards() if not is_tracing(g.macros) and any(pred(x) for x in gi.implied(g))]
+    pop_blocks = {p.idx for p in pops}
+    for b in call_sites(body, r"RequestGuard::new$"):
+        reach = b.idx in body.reachable(0, removed_edges=edges, removed_blocks=pop_blocks)
+        ctx.check(not reach, "pop_request:no-bypass", "every hand-out passes the discard, or an edge in {%s}" % " | ".join(l for l, _ in legit), body.where(b.idx), bad_detail="a request whose source address differs from the required master address is handed out on a path that skips the discard (a further condition was added to the mismatch test)")
 
 
 TX = r"TransportWriter::write$|OutstationSession::(write_solicited|repeat_solicited|write_error_response|write_unsolicited|repeat_unsolicited)$"
